@@ -112,6 +112,7 @@ type State struct {
 	done       bool
 	pathID     int
 	caseChoice map[string]int // alternatives chosen at "cases" clauses on this path
+	appendCase int            // 1: the next append is in place, 2: it reallocates (set by "cases append-fits")
 }
 
 func (st *State) Heap(name, sort string) T {
@@ -1184,6 +1185,45 @@ func (ex *Exec) localByName(st *State, fr *Frame, name string) (SV, bool) {
 		fmt.Sscanf(name[i+1:], "%d", &ord)
 		base = name[:i]
 		ord--
+	}
+	if base == "rangeslice" {
+		// "rangeslice#k": the slice ranged over by the k-th "for ... range <slice>" of the function (the value is
+		// evaluated once before the loop and has no name in the source when it is a call result)
+		if ord < 0 {
+			ord = 0
+		}
+		idxs := fr.info.cells["rangeindex"]
+		if ord >= len(idxs) {
+			return SV{}, false
+		}
+		for _, b := range fr.fn.Blocks {
+			for _, in := range b.Instrs {
+				var x, i ssa.Value
+				switch ia := in.(type) {
+				case *ssa.IndexAddr:
+					x, i = ia.X, ia.Index
+				case *ssa.Index:
+					x, i = ia.X, ia.Index
+				default:
+					continue
+				}
+				u, ok := i.(*ssa.UnOp)
+				if !ok || u.X != ssa.Value(idxs[ord]) {
+					continue
+				}
+				if _, isSl := under(x.Type()).(*types.Slice); !isSl {
+					continue
+				}
+				v, ok := fr.vals[x]
+				if !ok {
+					return SV{T: ex.freshTyped(st, "notlive_rangeslice", x.Type()), Ty: goTy(ex.c, x.Type())}, true
+				}
+				if t, isT := v.(T); isT {
+					return SV{T: t, Ty: goTy(ex.c, x.Type())}, true
+				}
+			}
+		}
+		return SV{}, false
 	}
 	as := fr.info.cells[base]
 	if len(as) == 0 {
